@@ -3,6 +3,8 @@ CONSTANTS MaxSteps = 6
           FreeSteps = 6
           Scope = "thorough"
           Caller = TRUE
+          Edits = FALSE
+          Pairs = "no"
           Extend = FALSE
 INIT Init
 NEXT NextGen
